@@ -1,7 +1,7 @@
 SPECIFICATION Spec
 CONSTANTS
   MaxSteps <- NoBound
-  Kinds = {"select", "poll", "pollfix", "epoll"}
+  Kinds = {"select", "pollfix", "epoll"}
   RegObj = {1, 3}
   Monitor = TRUE
 INVARIANT TypeOK
